@@ -97,4 +97,170 @@ def canonParsed : Parsed → Bool
   | .multi as conns => decide (as.length ≥ 2) && as.all canon && decide (conns.length + 1 = as.length) &&
       conns.all (fun c => c.isSome)
 
+/-! # Surface syntax: an AST of the documented ProForma grammar, its text and what it denotes
+
+`render` writes the text of a tree; `denote` is what the notation means, defined structurally and independently of the
+parser: a modification `[txt]^n` denotes the value `convert_type(txt)` with multiplier `n` (1 if absent) — ANY spelling
+`txt` is allowed (signed or unsigned numbers, trailing zeros, nested brackets …); residue modifications belong to the
+residue they follow (index = number of residues before it); an interval `( … )` covers the residues written inside it;
+the leading sections accumulate in order of appearance; chains are joined by `+` (False) or `//` (True).
+`Props/C01.parse_render` proves `parse (render t) = ok (denote t)` for every well-formed tree. -/
+
+/-- one modification as written: the text between the brackets and an optional `^n` -/
+structure SMod where
+  txt : List Char
+  mult : Option Nat
+  deriving DecidableEq, Repr
+
+def SMod.render (o c : Char) (s : SMod) : List Char :=
+  o :: (s.txt ++ c :: (match s.mult with | none => [] | some n => '^' :: natText n))
+
+def SMod.denote (s : SMod) : Mod :=
+  ⟨convertType s.txt, match s.mult with | none => 1 | some n => Int.ofNat n⟩
+
+/-- the text is balanced for its bracket pair; a written multiplier is at least 1 -/
+def SMod.wf (o c : Char) (s : SMod) : Bool :=
+  balanced o c s.txt && (match s.mult with | none => true | some n => decide (n ≥ 1))
+
+def renderMods (o c : Char) (l : List SMod) : List Char := l.flatMap (SMod.render o c)
+
+/-- a global modification: its value is text (not a number) and a written multiplier is 1 -/
+def SMod.wfGlobal (s : SMod) : Bool :=
+  s.wf '<' '>' && isStr (convertType s.txt) && (match s.mult with | none => true | some n => decide (n = 1))
+
+/-- a leading section -/
+inductive SStart where
+  | labile (m : SMod)          -- `{m}`
+  | globals (g : List SMod)    -- one run `<…><…>`: static rules (text contains `@`) and isotope labels, any order
+  | unknown (l : List SMod)    -- `[…]…?`
+  | nterm (l : List SMod)      -- `[…]…-`
+  deriving Repr
+
+def SStart.render : SStart → List Char
+  | .labile m => m.render '{' '}'
+  | .globals g => renderMods '<' '>' g
+  | .unknown l => renderMods '[' ']' l ++ ['?']
+  | .nterm l => renderMods '[' ']' l ++ ['-']
+
+def SStart.wf : SStart → Bool
+  | .labile m => m.wf '{' '}'
+  | .globals g => !g.isEmpty && g.all SMod.wfGlobal
+  | .unknown l => !l.isEmpty && l.all (SMod.wf '[' ']')
+  | .nterm l => !l.isEmpty && l.all (SMod.wf '[' ']')
+
+def SStart.isGlobals : SStart → Bool
+  | .globals _ => true
+  | _ => false
+
+/-- two `<…>` runs are never adjacent (they would be one run) -/
+def sNoAdjacentGlobals : List SStart → Bool
+  | a :: b :: t => !(a.isGlobals && b.isGlobals) && sNoAdjacentGlobals (b :: t)
+  | _ => true
+
+def optList {α} (l : List α) : Option (List α) := if l.isEmpty then none else some l
+
+/-- extend an optional list by a run; nothing happens (`None` stays `None`) when the run is empty -/
+def appendRun (cur : Option (List Mod)) (l : List Mod) : Option (List Mod) :=
+  if l.isEmpty then cur else some (cur.getD [] ++ l)
+
+/-- leading sections accumulate in order of appearance; inside a `<…>` run the rules with `@` are static rules, the
+others isotope labels -/
+def SStart.denote (acc : Annotation) : SStart → Annotation
+  | .labile m => { acc with labile := some (acc.labile.getD [] ++ [m.denote]) }
+  | .globals g =>
+    { acc with static := appendRun acc.static ((g.map SMod.denote).filter fun m => strHasAt m.val),
+               isotope := appendRun acc.isotope ((g.map SMod.denote).filter fun m => !strHasAt m.val) }
+  | .unknown l => { acc with unknown := some (acc.unknown.getD [] ++ l.map SMod.denote) }
+  | .nterm l => { acc with nterm := some (acc.nterm.getD [] ++ l.map SMod.denote) }
+
+/-- a residue with the modifications written after it -/
+structure SRes where
+  c : Char
+  mods : List SMod
+  deriving Repr
+
+def SRes.render (r : SRes) : List Char := r.c :: renderMods '[' ']' r.mods
+def SRes.wf (r : SRes) : Bool := isAA r.c && r.mods.all (SMod.wf '[' ']')
+
+/-- the residue is appended; its modifications are stored under its index -/
+def SRes.denote (a : Annotation) (r : SRes) : Annotation :=
+  { a with seq := a.seq ++ [r.c],
+           internal := if r.mods.isEmpty then a.internal
+                       else some (a.internal.getD [] ++ [(Int.ofNat a.seq.length, r.mods.map SMod.denote)]) }
+
+/-- a piece of the residue sequence: one residue, or an ambiguity interval `( … )[mods]` / `(? … )[mods]` -/
+inductive SSeg where
+  | res (r : SRes)
+  | group (amb : Bool) (inner : List SRes) (mods : List SMod)
+  deriving Repr
+
+def SSeg.render : SSeg → List Char
+  | .res r => r.render
+  | .group amb inner mods =>
+    '(' :: ((if amb then ['?'] else []) ++ (inner.flatMap SRes.render ++ ')' :: renderMods '[' ']' mods))
+
+def SSeg.wf : SSeg → Bool
+  | .res r => r.wf
+  | .group _ inner mods => !inner.isEmpty && inner.all SRes.wf && mods.all (SMod.wf '[' ']')
+
+/-- an interval covers exactly the residues written inside the parentheses -/
+def SSeg.denote (a : Annotation) : SSeg → Annotation
+  | .res r => r.denote a
+  | .group amb inner mods =>
+    let a' := inner.foldl SRes.denote a
+    { a' with intervals := some (a'.intervals.getD [] ++
+        [⟨Int.ofNat a.seq.length, Int.ofNat a'.seq.length, amb, optList (mods.map SMod.denote)⟩]) }
+
+/-- `/z[adducts]`: the charge may carry an explicit `+` -/
+structure SCharge where
+  ch : Int
+  explicitPlus : Bool
+  adducts : List SMod
+  deriving Repr
+
+def SCharge.render (q : SCharge) : List Char :=
+  '/' :: ((if q.explicitPlus ∧ q.ch ≥ 0 then ['+'] else []) ++ (intText q.ch ++ renderMods '[' ']' q.adducts))
+
+def SCharge.wf (q : SCharge) : Bool :=
+  q.adducts.all fun s => s.wf '[' ']' && (match s.mult with | none => true | some n => decide (n = 1))
+
+/-- one chain -/
+structure SChain where
+  start : List SStart
+  segs : List SSeg
+  cterm : List SMod
+  charge : Option SCharge
+  deriving Repr
+
+def SChain.render (t : SChain) : List Char :=
+  t.start.flatMap SStart.render ++ (t.segs.flatMap SSeg.render ++
+    ((if t.cterm.isEmpty then [] else '-' :: renderMods '[' ']' t.cterm) ++
+     (match t.charge with | none => [] | some q => q.render)))
+
+def SChain.wf (t : SChain) : Bool :=
+  t.start.all SStart.wf && sNoAdjacentGlobals t.start && !t.segs.isEmpty && t.segs.all SSeg.wf &&
+  t.cterm.all (SMod.wf '[' ']') && (match t.charge with | none => true | some q => q.wf)
+
+def SChain.denote (t : SChain) : Annotation :=
+  let a := t.segs.foldl SSeg.denote (t.start.foldl SStart.denote { seq := [] })
+  { a with cterm := optList (t.cterm.map SMod.denote),
+           charge := t.charge.map (·.ch),
+           adducts := match t.charge with | none => none | some q => optList (q.adducts.map SMod.denote) }
+
+/-- a whole ProForma string: a chain followed by (joiner, chain) pairs; `true` = `//`, `false` = `+` -/
+structure SText where
+  first : SChain
+  rest : List (Bool × SChain)
+  deriving Repr
+
+def SText.render (t : SText) : List Char :=
+  t.first.render ++ t.rest.flatMap fun p => (if p.1 then ['/', '/'] else ['+']) ++ p.2.render
+
+def SText.wf (t : SText) : Bool := t.first.wf && t.rest.all fun p => p.2.wf
+
+def SText.denote (t : SText) : Parsed :=
+  match t.rest with
+  | [] => .single t.first.denote
+  | _ => .multi (t.first.denote :: t.rest.map fun p => p.2.denote) (t.rest.map fun p => some p.1)
+
 end Pept
